@@ -130,7 +130,7 @@ def run_strategy(opt, files, points=None, seed=0, batch=50, want_nll=True, lazy_
     from tf_pwa.data import LazyCall
     from tf_pwa.variable import VarsManager
 
-    out = Obs(density=[], nll=[], grad=[], batched=[])
+    out = Obs(density=[], nll=[], grad=[], batched=[])  # + subset / after_subset when a chain subset was evaluated
     sink = io.StringIO()
     with contextlib.redirect_stdout(sink):
         config = ConfigLoader(card(opt, files), vm=VarsManager(name="", dtype="float64"))
@@ -149,6 +149,20 @@ def run_strategy(opt, files, points=None, seed=0, batch=50, want_nll=True, lazy_
             a = np.asarray(amp(d0))
             b = np.asarray(amp(d0))
             out["density"].append((a, b))
+        dg = getattr(amp, "decay_group", None)
+        if not out["lazy"] and dg is not None and len(dg.chains) > 1:
+            # a partial chain selection (fit fractions, partial-wave plots): the strategy must evaluate the same partial sum
+            amp.set_params(points[1])
+            full = list(dg.chains_idx)
+            try:
+                subs = []
+                for sub in ([0], full[1:]):
+                    amp.set_used_chains(sub)
+                    subs.append(np.asarray(amp(d0)))
+                out["subset"] = subs
+            finally:
+                amp.set_used_chains(full)
+            out["after_subset"] = np.asarray(amp(d0))
         if out["lazy"]:
             # lazily batched: density of every batch the dataset yields, concatenated
             amp.set_params(points[1])
@@ -186,6 +200,16 @@ def compare(obs, ref, tol):
                 bad.append(("density[point %d,%s call]" % (k, tag), e))
             if np.any(np.asarray(x) < 0):
                 bad.append(("density[point %d] negative" % k, float(np.min(x))))
+    if "subset" in obs and "subset" in ref:
+        for k, (x, r) in enumerate(zip(obs["subset"], ref["subset"])):
+            e = rel_err(x, r)
+            worst = max(worst, e) if np.isfinite(e) else float("inf")
+            if not e <= tol:
+                bad.append(("density[chain subset %d]" % k, e))
+        e = rel_err(obs["after_subset"], ref["density"][1][0])
+        worst = max(worst, e) if np.isfinite(e) else float("inf")
+        if not e <= tol:
+            bad.append(("density[all chains, after a subset was selected]", e))
     if obs.get("lazy") and len(obs.get("batched", [])):
         e = rel_err(obs["batched"], ref["density"][1][0])
         worst = max(worst, e)
